@@ -12,6 +12,8 @@ impl IoWrapper {
     }
 
     pub fn try_read_line(&self) -> Option<String> {
+        #[cfg(jence_verif)]
+        if let Some(r) = crate::verif_driver::scripted_try_read_line() { return r; }
         match self.receiver.try_recv() {
             Ok(line) => Some(line.trim().to_string()),
             Err(_) => None,
@@ -19,6 +21,8 @@ impl IoWrapper {
     }
 
     pub fn read_line(&self) -> String {
+        #[cfg(jence_verif)]
+        if let Some(r) = crate::verif_driver::scripted_read_line() { return r; }
         match self.receiver.recv() {
             Ok(line) => line.trim().to_string(),
             Err(_) => unreachable!(),
